@@ -60,6 +60,6 @@ Proof. vm_compute. reflexivity. Qed.
 
 (* the file chosen for a file patch is the same in any two worlds in which every name is the same thing *)
 Theorem C16_name_choice_depends_on_view :
-  forall dm fs1 ov1 fs2 ov2 fp, wsim dm fs1 ov1 fs2 ov2 -> choose_filename fs1 ov1 fp = choose_filename fs2 ov2 fp.
+  forall K dm fs1 ov1 fs2 ov2 fp, wsim K dm fs1 ov1 fs2 ov2 -> fpK K fp -> choose_filename fs1 ov1 fp = choose_filename fs2 ov2 fp.
 Proof. exact choose_filename_sim. Qed.
 Print Assumptions C16_name_choice_depends_on_view.
